@@ -165,7 +165,7 @@ def base_env(extra=None):
 
 
 def sim_env(env, entropy=None, plan=None, order=None, trace=None, clock=None,
-            pid=None, trace_stdio=True):
+            pid=None, trace_stdio=True, hold=None):
     """Environment for a process running under the simulated OS."""
     e = dict(env)
     e["LD_PRELOAD"] = SIMOS
@@ -175,6 +175,8 @@ def sim_env(env, entropy=None, plan=None, order=None, trace=None, clock=None,
         e["VERIF_SIM_PLAN"] = ";".join(plan)
     if order:
         e["VERIF_SIM_ORDER"] = order
+    if hold:
+        e["VERIF_SIM_HOLD"] = hold
     if trace:
         e["VERIF_SIM_TRACE"] = trace
     if clock is not None:
